@@ -208,7 +208,7 @@ impl Part for Table {
     }
     fn cases(&self, tier: Tier) -> usize {
         match tier {
-            Tier::Quick => 32_000,
+            Tier::Quick => 96_000,
             Tier::Thorough => 1_600_000,
         }
     }
